@@ -252,6 +252,30 @@ Definition layout_ok (ss : list N) : bool :=
   | _ => false
   end.
 
+(* ---------------------------------------------------------------- the writer's column layout *)
+(* [ChangeOpsColumns::raw_columns] (change_op_columns.rs): the fixed list
+     obj actor, obj counter, key actor, key counter, key string, insert, action, value metadata,
+     value raw, pred group, pred actor, pred counter, expand, mark name
+   = ColumnSpec::new(id, type, false) = id * 16 + type, of which [RawColumns::from_iter] keeps the
+   non-empty ones; value raw only beside value metadata, pred actor and pred counter only together
+   and beside the pred group *)
+Definition known_specs : list N := [1; 2; 17; 19; 21; 52; 66; 86; 87; 112; 113; 115; 148; 165].
+
+Fixpoint is_sublist (ss l : list N) : bool :=
+  match ss, l with
+  | [], _ => true
+  | _ :: _, [] => false
+  | s :: ss', x :: l' => if s =? x then is_sublist ss' l' else is_sublist ss l'
+  end.
+
+Definition has (s : N) (ss : list N) : bool := existsb (N.eqb s) ss.
+
+Definition writer_specs_ok (ss : list N) : bool :=
+  is_sublist ss known_specs
+  && implb (has 87 ss) (has 86 ss)
+  && Bool.eqb (has 113 ss) (has 115 ss)
+  && implb (has 113 ss) (has 112 ss).
+
 (* ---------------------------------------------------------------- the change body *)
 Record change_body := mkBody {
   cb_deps : list bytes;
